@@ -28,7 +28,7 @@ ASSUMPTIONS = ['|k| = 0 mode has mu = 0 (nbodykit convention, documented in the 
                'counted on either side, consistently for all modes with the same integers; this includes the k = 0 (k_perp = 0) mode when the first k edge is exactly 0',
                'float32 accumulation: |sum error| <= (N+32) eps32 sum|terms| (+ Legendre evaluation error 4 l^2 eps32 per term)',
                'values of empty bins are not constrained', 'mu = |kz|/|k| also for odd multipoles',
-               'mesh values: distinct positive irrational weights, not Hermitian-symmetrised (each stored value is its own)']
+               'mesh values: distinct positive irrational weights with exact zeros in one cell out of seven, not Hermitian-symmetrised (each stored value is its own)']
 CHUNK = 6
 WORKERS = 8
 ISOLATE_REPRO = True
@@ -190,7 +190,9 @@ def weights(n, fourier):
         a, b, c = np.meshgrid(np.arange(n), np.arange(n), np.arange(n), indexing='ij')
         lin = (a * n + b) * n + c
         idx = np.minimum(lin, (((-a) % n) * n + ((-b) % n)) * n + ((-c) % n)).astype(np.float64)
-    return (1.0 + ((idx + 1.0) * PHI) % 1.0).astype(np.float32)
+    W = (1.0 + ((idx + 1.0) * PHI) % 1.0).astype(np.float32)
+    W[idx % 7 == 3] = 0.0       # exact zeros: an empty mode is still a mode (it counts, and it pulls the mean down)
+    return W
 
 
 _K = {}
